@@ -3,5 +3,48 @@
 #![allow(missing_docs, unused_imports, unused, dead_code, unreachable_pub)]
 #![allow(clippy::all, clippy::pedantic)]
 
-// wrappers for the spawnx property group
+// wrappers for the spawnx property group (C35, C36): constructors of the real
+// spawners from plain values (the address types have crate-private constructors).
 use super::m;
+
+use std::net::IpAddr;
+
+use ntp_proto::{ProtocolVersion, SourceConfig};
+
+use crate::daemon::config::{NormalizedAddress, NtpAddress, PoolSourceConfig, StandardSource};
+use crate::daemon::spawn::pool::PoolSpawner;
+use crate::daemon::spawn::standard::StandardSpawner;
+
+pub fn ntp_address(name: &str, port: u16) -> NtpAddress {
+    NtpAddress(NormalizedAddress::new_from_parts(name, port))
+}
+
+/// the real pool spawner for `name:port` with the given count and ignore list
+pub fn pool_spawner(name: &str, port: u16, count: usize, ignore: Vec<IpAddr>) -> PoolSpawner {
+    PoolSpawner::new(
+        PoolSourceConfig {
+            addr: ntp_address(name, port),
+            count,
+            ignore,
+            ntp_version: ProtocolVersion::V4,
+        },
+        SourceConfig::default(),
+    )
+}
+
+/// the real single-server spawner for `name:port`
+pub fn standard_spawner(name: &str, port: u16) -> StandardSpawner {
+    StandardSpawner::new(
+        StandardSource {
+            address: ntp_address(name, port),
+            ntp_version: ProtocolVersion::V4,
+        },
+        SourceConfig::default(),
+    )
+}
+
+/// the daemon's pacing constant (for the evidence only; the oracle uses the
+/// statement's own "one second")
+pub fn network_wait_period() -> std::time::Duration {
+    crate::daemon::system::NETWORK_WAIT_PERIOD
+}
